@@ -1,6 +1,8 @@
 import Proofs.SqlLoader
 import Proofs.SqlBuildProj
-import Proofs.SqlBuildFail
+import Proofs.SqlBuildCause
+import Proofs.SqlValueForms
+import Proofs.SqlCharRoundtrip
 import Proofs.SqlBuildShape
 
 /-!
@@ -8,8 +10,14 @@ import Proofs.SqlBuildShape
   Property theorems only (helper lemmas: Proofs/SqlLexer.lean, SqlParserTotal.lean, SqlLoader.lean).
   Model: PyxModel/Sql (lexer following the rule order of Gen/SqlLex.lean, parser, build phases, loader as a
   state machine).  What Lean carries is the LOGIC of the loader: a total classification of every text, the state
-  machine `input`, the documented outcome of every build.  The exception discipline and the running time of the
-  Python code are decided by the correspondence harness (harness/prop_C12.py), not by these theorems.
+  machine `input`, the documented outcome of every build.  The model makes the outcome the property forbids explicit
+  (`BuildErr.builtinErr` at the three places where the Python code can raise a built-in exception during a build, and
+  `BuildErr.unmodelled` for identifiers of the form `__x__`, the open finding) and `build_documented` shows it cannot be
+  reached.  For `input` the model has two outcomes only: the token and grammar actions of the source slice, count and
+  concatenate, none of them can raise -- that is a reading of the source, checked by the direct predicate (D) on the
+  implementation, not a theorem; what is proved about `input` is that a rejection is never fuel exhaustion
+  (`lexer_total`, `parser_total`, `sequence_fuel`).  The exception discipline of the Python code and its running time are
+  decided by the correspondence harness (harness/prop_C12.py), not by these theorems.
 -/
 namespace PyxProps.C12
 open Pyx.Sql
@@ -32,7 +40,18 @@ theorem parser_total (toks : List Tok) (n : Nat) (h : toks.length ≤ n) : parse
 theorem parser_progress (toks : List Tok) (x : Stmt × List Tok) (h : stmtAt toks = some x) : x.2.length < toks.length :=
   stmtAt_shorter toks x h
 
-/-- every text is classified: accepted with a statement list, or the parsing exception -/
+/-- the comma-separated sequences inside a statement: any fuel of at least one unit per remaining token gives the answer
+    of the fuel `seqP` uses, so `none` is a syntax error, never exhaustion -/
+theorem sequence_fuel {α : Type} (elem : List Tok → Option (α × List Tok))
+    (he : ∀ toks x, elem toks = some x → x.2.length ≤ toks.length) (fuel : Nat) (toks : List Tok) (h : toks.length ≤ fuel) :
+    seqTail elem fuel toks = seqTail elem toks.length toks ∧
+    (∀ toks x, identAt toks = some x → x.2.length ≤ toks.length) ∧
+    (∀ toks x, attrAt toks = some x → x.2.length ≤ toks.length) ∧
+    (∀ toks x, valueAt toks = some x → x.2.length ≤ toks.length) :=
+  ⟨seqTail_fuel_stable elem he fuel toks.length toks h (Nat.le_refl _), identAt_le, attrAt_le, valueAt_le⟩
+
+/-- the model of `input` has exactly two outcomes (a case split on the outcome type -- definitional; see the header for
+    why there is no third one) -/
 theorem classify_total (u : UC) (t : Text) : classify u t = .parsing ∨ ∃ stmts, classify u t = .accepted stmts := by
   cases h : classify u t with
   | parsing => exact Or.inl rfl
@@ -65,21 +84,60 @@ theorem later_calls_unaffected (u : UC) (l : Loader) (bad : Text) (later : List 
     Loader.inputs u l (bad :: later) = Loader.inputs u l later := by
   simp [Loader.inputs, input_atomic u l bad h]
 
-/-- the documented outcome of every build: it succeeds, or it ends in the metamodel exception caused by a CREATE
-    TABLE (duplicate class, or two attribute names that coincide after upper-casing), a CREATE UNIQUE INDEX with attributes (unknown class), a CREATE ROP (unknown class, key
-    lists of different length, unknown identifying attribute) or an INSERT into a class with an attribute of unknown
-    type or a named INSERT into an undeclared class with two names that coincide after upper-casing; or it ends in the parsing exception caused by an INSERT (named INSERT with different numbers of names and
-    values, or a value that cannot be deserialised for the type of its column) -/
-theorem build_outcome_total (u : UC) (stmts : List Stmt) :
-    (∃ s, build u stmts = .ok s) ∨
-    (build u stmts = .error .metaErr ∧ MetaCause u stmts) ∨
-    (build u stmts = .error .parseErr ∧ ParseCause u stmts) := by
-  cases h : build u stmts with
-  | ok s => exact Or.inl ⟨s, rfl⟩
-  | error e =>
-    rcases build_error_cause u stmts e h with ⟨he, hc⟩ | ⟨he, hc⟩
-    · subst he; exact Or.inr (Or.inl ⟨rfl, hc⟩)
-    · subst he; exact Or.inr (Or.inr ⟨rfl, hc⟩)
+/-- NO BUILT-IN EXCEPTION FROM A BUILD: statements whose values have a lexical form `guess_type_name` knows (every value
+    the parser produces has one) and that use no identifier of the form `__x__` as attribute name, named INSERT column
+    or association key build, or end in the metamodel exception, or in the parsing exception.  The outcome type of the
+    model has two more constructors, `builtinErr` -- returned at `stmt.values[idx]` (IndexError), at `default_value(None)`
+    (AttributeError) and at `_is_null`'s `len(value)` (TypeError) -- and `unmodelled`; neither is reached. -/
+theorem build_outcome_total (u : UC) (stmts : List Stmt) (hp : touchesInternals stmts = false) (hg : ValuesGuessable u stmts) :
+    (∃ s, build u stmts = .ok s) ∨ build u stmts = .error .metaErr ∨ build u stmts = .error .parseErr :=
+  build_documented u stmts hp hg
+
+/-- the hypothesis `ValuesGuessable` of `build_outcome_total` holds for the statements of EVERY accepted text: every
+    token the lexer returns for a value has a lexeme `guess_type_name` classifies (the STRING / GUID lexeme is matched by
+    its own rule again, a NUMBER / FRACTION lexeme begins with a digit, `TRUE` / `FALSE` are the reserved words), and the
+    parser takes values only from a suffix of the token list -/
+theorem values_classified (u : UC) (text : Text) (stmts : List Stmt) (h : classify u text = .accepted stmts) :
+    ValuesGuessable u stmts := accepted_guessable u text stmts h
+
+/-- NO BUILT-IN EXCEPTION, for a loader: whatever texts were fed to it (accepted or rejected, in any order), if the
+    statements it holds use no identifier of the form `__x__` in an attribute position, `build_metamodel` returns a
+    metamodel or raises the metamodel exception or the parsing exception -/
+theorem loader_no_builtin (u : UC) (texts : List Text)
+    (hp : touchesInternals (Loader.inputs u Loader.fresh texts).statements = false) :
+    (∃ s, (Loader.inputs u Loader.fresh texts).build u = .ok s) ∨
+    (Loader.inputs u Loader.fresh texts).build u = .error .metaErr ∨
+    (Loader.inputs u Loader.fresh texts).build u = .error .parseErr :=
+  loader_build_documented u texts hp
+
+/-- … of which the fifth phase: in every state that phases 1–4 reach, `_is_null` calls `len` on strings only
+    (invariant: class names distinct after upper-casing, every stored value of a STRING attribute is a string) -/
+theorem connections_never_raise (u : UC) (stmts : List Stmt) (s : BState) (h : buildCore u stmts = .ok s) :
+    popConnections u s = .ok s ∧ KindsDistinct u s.classes ∧ ∀ c ∈ s.classes, ∀ row ∈ c.rows, rowTyped u c.attrs row = true :=
+  ⟨popConnections_ok u stmts s h, (buildCore_inv u stmts s h).distinct, (buildCore_inv u stmts s h).typed⟩
+
+/-- THE CAUSES OF A FAILING BUILD, EXACTLY, against the state actually reached (`Failure`): a build ends in exception `e`
+    iff  (tables) the CREATE TABLE statements name a class twice or state two attribute names of one class that coincide
+    after upper-casing [e = metamodel];  or phase 1 gives `s1` and (index) an identifier with attributes names a class
+    that `s1` lacks [metamodel];  or phase 2 gives `s2` and (rop) `define_association` rejects a CREATE ROP against the
+    classes of `s2` (`RopBad`) [metamodel];  or phase 3 gives `s3` and (insert) the statements split as
+    `pre ++ INSERT :: post`, the INSERTs of `pre` succeed from `s3` leaving `s'`, and that INSERT fails in `s'` with `e`
+    (`InsertFails`: arity [parsing], name clash of an inferred class [metamodel], unguessable value [built-in],
+    unknown attribute type [metamodel], unreadable value [parsing]) -/
+theorem build_fails_iff (u : UC) (stmts : List Stmt) (e : BuildErr) (hp : touchesInternals stmts = false) :
+    build u stmts = .error e ↔ Failure u stmts e := build_error_iff u stmts e hp
+
+/-- … and one INSERT, in the state the earlier statements left, with the tests spelled out -/
+theorem insert_fails_iff (u : UC) (s : BState) (kind : Name) (values : List Text) (names : Option (List Name)) (e : BuildErr) :
+    (popInstance u s kind values names = .error e ↔ InsertFails u s kind values names e) ∧
+    ((isNamed names && (names.getD []).length != values.length) = true ↔
+      ∃ n ns, names = some (n :: ns) ∧ (n :: ns).length ≠ values.length) ∧
+    (inferOk u s kind (isNamed names) (names.getD []) values = false ↔
+      s.find? u kind = none ∧ ∃ n ns, names = some (n :: ns) ∧ attrNamesOk u (inferredAttrs u (n :: ns) values) = false) ∧
+    (guessOk u s kind values = false ↔ s.find? u kind = none ∧ ∃ v ∈ values, guessType u v = none) ∧
+    (∀ c, newRowOk u c = false ↔ ∃ a ∈ c.attrs, c.referential.contains a.1 = false ∧ tyOfName u a.2 = none) :=
+  ⟨popInstance_error_iff u s kind values names e, arity_iff names values, inferOk_false_iff u s kind values names,
+   guessOk_false_iff u s kind values, newRowOk_false_iff u⟩
 
 /-- BUILD SUCCESS: a statement list in which class names are distinct after upper-casing, and so are the attribute
     names within every CREATE TABLE (`BuildOk.attrNames` — `define_class` raises otherwise), identifiers (with attributes)
@@ -99,7 +157,7 @@ theorem build_success (u : UC) (stmts : List Stmt) (h : BuildOk u stmts) :
     two class names equal after upper-casing; a class with two attribute names equal after upper-casing; an identifier (with attributes) for an undeclared class; an association
     whose source or target class is undeclared, whose key lists differ in length, or whose target class lacks a target
     key (`RopBad`) — the latter two when the earlier phases succeed -/
-theorem build_outcome_complete_meta (u : UC) (stmts : List Stmt) :
+theorem build_outcome_complete_meta (u : UC) (stmts : List Stmt) (hp : touchesInternals stmts = false) :
     (¬ KindsDistinct u (newTables stmts) → build u stmts = .error .metaErr) ∧
     ((∃ c ∈ newTables stmts, attrNamesOk u c.attrs = false) → build u stmts = .error .metaErr) ∧
     (KindsDistinct u (newTables stmts) → (∀ c ∈ newTables stmts, attrNamesOk u c.attrs = true) →
@@ -109,7 +167,7 @@ theorem build_outcome_complete_meta (u : UC) (stmts : List Stmt) :
       (∀ kind name attrs, Stmt.createIndex kind name attrs ∈ stmts → attrs ≠ [] → ∃ c ∈ newTables stmts, sameKind u c.kind kind = true) →
       (∃ rel sk sc skeys sp tk tc tkeys tp, Stmt.createRop rel sk sc skeys sp tk tc tkeys tp ∈ stmts ∧
         RopBad u (newTables stmts) sk skeys tk tkeys) → build u stmts = .error .metaErr) :=
-  ⟨build_fails_duplicate u stmts, build_fails_attr_names u stmts, build_fails_index u stmts, build_fails_rop u stmts⟩
+  ⟨build_fails_duplicate u stmts hp, build_fails_attr_names u stmts hp, build_fails_index u stmts hp, build_fails_rop u stmts hp⟩
 
 /-- the first phase succeeds EXACTLY when the declared class names are distinct after upper-casing and no CREATE TABLE
     states two attribute names that coincide after upper-casing (`attrNamesOk`, which decides `Nodup` of the upper-cased
@@ -146,27 +204,30 @@ theorem insert_outcome_complete (u : UC) (s : BState) (kind : Name) (values : Li
 
 /-- … and the first INSERT that fails decides the outcome of the build when the definition phases succeed -/
 theorem build_first_failing_insert (u : UC) (pre post : List Stmt) (kind : Name) (values : List Text) (names : Option (List Name))
-    (s1 s2 s3 s' : BState) (e : BuildErr)
+    (s1 s2 s3 s' : BState) (e : BuildErr) (hp : touchesInternals (pre ++ Stmt.insert kind values names :: post) = false)
     (h1 : popClasses u (pre ++ Stmt.insert kind values names :: post) BState.empty = .ok s1)
     (h2 : popIdents u (pre ++ Stmt.insert kind values names :: post) s1 = .ok s2)
     (h3 : popAssocs u (pre ++ Stmt.insert kind values names :: post) s2 = .ok s3)
     (hpre : popInstances u pre s3 = .ok s') (hins : popInstance u s' kind values names = .error e) :
     build u (pre ++ Stmt.insert kind values names :: post) = .error e :=
-  build_fails_insert u pre post kind values names s1 s2 s3 s' e h1 h2 h3 hpre hins
+  build_fails_insert u pre post kind values names s1 s2 s3 s' e hp h1 h2 h3 hpre hins
 
 /-- statements other than INSERT never make a build end in the parsing exception -/
-theorem build_parsing_needs_insert (u : UC) (stmts : List Stmt) (h : build u stmts = .error .parseErr) :
-    ∃ kind values names, Stmt.insert kind values names ∈ stmts := by
-  rcases build_error_cause u stmts _ h with ⟨he, _⟩ | ⟨_, k, v, n, hm, _⟩
-  · exact absurd he (by decide)
-  · exact ⟨k, v, n, hm⟩
+theorem build_parsing_needs_insert (u : UC) (stmts : List Stmt) (hp : touchesInternals stmts = false)
+    (h : build u stmts = .error .parseErr) : ∃ kind values names, Stmt.insert kind values names ∈ stmts := by
+  have hf := (build_error_iff u stmts _ hp).mp h
+  cases hf with
+  | insert s1 s2 s3 _ _ _ _ hfi =>
+    obtain ⟨pre, k, v, n, post, s', hs, _, _⟩ := hfi
+    exact ⟨k, v, n, by rw [hs]; simp⟩
 
 /-- SOURCE TIE, phase order: the model's `build` is the generic interpretation (`runPhases`: run the phases in the given
     order, the first exception ends the build) of the order in which `ModelLoader.populate` calls its `populate_<phase>`
     methods in the source now (generated table Gen/BuildShape.lean) — classes, unique identifiers, associations,
-    instances, connections.  Reordering the calls in the source changes the table and breaks this theorem. -/
+    instances, connections (the last one modelled as far as it can raise: `popConnections`).  Reordering the calls in the source changes the table and breaks this theorem. -/
 theorem build_follows_source (u : UC) (stmts : List Stmt) :
-    build u stmts = runPhases u stmts Gen.BuildShape.populateOrder BState.empty := build_eq_runPhases u stmts
+    build u stmts = if touchesInternals stmts then .error .unmodelled
+      else runPhases u stmts Gen.BuildShape.populateOrder BState.empty := build_eq_runPhases u stmts
 
 /-- SOURCE TIE, shape of `build_metamodel`, `input` and `populate_associations`: a fresh metamodel is created, populated
     and returned; `input` binds the result of parsing the WHOLE text to a name and only then extends `self.statements`
@@ -199,14 +260,72 @@ example (u : UC) (l : Loader) : (l.input u ['\'', 'x']).1 = l := by
 /-- the empty text is accepted with no statements -/
 example (u : UC) : classify u [] = .accepted [] := by simp [classify, lex_nil, parse, parseFuel]
 
+/-- AN ACCEPTED, NON-EMPTY TEXT (a class and one row, printed by the writers' model) and what the theorems say about it:
+    it is accepted with exactly its two statements, `input` appends them (`input_extends`), the hypotheses of
+    `build_outcome_total` hold (`values_classified`), and the build succeeds -/
+example : ∃ text stmts,
+    printItems UC.ascii [.cls ['A'] [(['s'], "STRING".toList)], .inst ['A'] [(['s'], "STRING".toList)] [some (.str ['x'])]] = some text ∧
+    text ≠ [] ∧ classify UC.ascii text = .accepted stmts ∧
+    stmts = [.createTable ['A'] [(['s'], "STRING".toList)], .insert ['A'] ["'x'".toList] none] ∧
+    Loader.fresh.input UC.ascii text = (⟨stmts⟩, .accepted) ∧
+    touchesInternals stmts = false ∧ ValuesGuessable UC.ascii stmts ∧
+    ∃ s, build UC.ascii stmts = .ok s := by
+  cases hp : printItems UC.ascii [.cls ['A'] [(['s'], "STRING".toList)], .inst ['A'] [(['s'], "STRING".toList)] [some (.str ['x'])]] with
+  | none => exact absurd hp (by decide)
+  | some text =>
+    have hw : ∀ it ∈ [Item.cls ['A'] [(['s'], "STRING".toList)], .inst ['A'] [(['s'], "STRING".toList)] [some (.str ['x'])]],
+        it.WF UC.ascii := by
+      intro it hit
+      simp only [List.mem_cons, List.mem_nil_iff, or_false] at hit
+      rcases hit with rfl | rfl
+      · refine ⟨⟨by decide, by decide, by decide, by decide⟩, ?_⟩
+        intro a ha; simp only [List.mem_singleton] at ha; subst ha
+        exact ⟨⟨by decide, by decide, by decide, by decide⟩, ⟨by decide, by decide, by decide, by decide⟩⟩
+      · refine ⟨⟨by decide, by decide, by decide, by decide⟩, ?_⟩
+        intro a ha; simp only [List.mem_singleton] at ha; subst ha
+        exact ⟨by unfold NoNewline; decide, by unfold NoNewline; decide⟩
+    obtain ⟨stmts, hs, hc⟩ := classify_items UC.ascii _ text hw hp
+    have hst : stmts = [.createTable ['A'] [(['s'], "STRING".toList)], .insert ['A'] ["'x'".toList] none] := by
+      have : itemsStmts UC.ascii [.cls ['A'] [(['s'], "STRING".toList)], .inst ['A'] [(['s'], "STRING".toList)] [some (.str ['x'])]] =
+          some [.createTable ['A'] [(['s'], "STRING".toList)], .insert ['A'] ["'x'".toList] none] := by decide
+      rw [this] at hs; exact (Option.some.inj hs).symm
+    refine ⟨text, stmts, rfl, ?_, hc, hst, by simp [Loader.input, hc, Loader.fresh], ?_, accepted_guessable UC.ascii text stmts hc, ?_⟩
+    · intro e; subst e; exact absurd hp (by decide)
+    · subst hst; decide
+    · subst hst
+      cases hb : build UC.ascii [.createTable ['A'] [(['s'], "STRING".toList)], .insert ['A'] ["'x'".toList] none] with
+      | ok s => exact ⟨s, rfl⟩
+      | error e =>
+        have : (match build UC.ascii [.createTable ['A'] [(['s'], "STRING".toList)], .insert ['A'] ["'x'".toList] none] with
+          | .ok _ => true | _ => false) = true := by decide
+        rw [hb] at this; cases this
+
+/-- A FAILING INSERT: the value `'x'` cannot be read for an INTEGER column; the build ends in the parsing exception and
+    `build_fails_iff` names the cause (the first failing INSERT, in the state phases 1–3 left) -/
+example : build UC.ascii [.createTable ['A'] [(['i'], "INTEGER".toList)], .insert ['A'] ["'x'".toList] none] = .error .parseErr ∧
+    Failure UC.ascii [.createTable ['A'] [(['i'], "INTEGER".toList)], .insert ['A'] ["'x'".toList] none] .parseErr := by
+  have hb : build UC.ascii [.createTable ['A'] [(['i'], "INTEGER".toList)], .insert ['A'] ["'x'".toList] none] = .error .parseErr := by
+    cases h : build UC.ascii [.createTable ['A'] [(['i'], "INTEGER".toList)], .insert ['A'] ["'x'".toList] none] with
+    | ok s =>
+      have : (match build UC.ascii [.createTable ['A'] [(['i'], "INTEGER".toList)], .insert ['A'] ["'x'".toList] none] with
+        | .error .parseErr => true | _ => false) = true := by decide
+      rw [h] at this; cases this
+    | error e =>
+      have : (match build UC.ascii [.createTable ['A'] [(['i'], "INTEGER".toList)], .insert ['A'] ["'x'".toList] none] with
+        | .error .parseErr => true | _ => false) = true := by decide
+      rw [h] at this
+      cases e <;> simp at this ⊢
+  exact ⟨hb, (build_fails_iff UC.ascii _ _ (by decide)).mp hb⟩
+
 /-- a duplicate class ends the build in the metamodel exception -/
 example (u : UC) : build u [.createTable ['A'] [], .createTable ['A'] []] = .error .metaErr := by
-  simp [build, popClasses, defineClass, BState.find?, BState.empty, attrNamesOk, distinctB]
+  apply build_fails_duplicate u _ (by decide)
+  simp [KindsDistinct, newTables]
 
 /-- two attribute names that differ only in letter case end the build in the metamodel exception (audit C12#3c) -/
 example (u : UC) : build u [.createTable ['A'] [(['X'], "INTEGER".toList), (['x'], "INTEGER".toList)],
     .insert ['A'] [['1'], ['2']] none] = .error .metaErr := by
-  apply build_fails_attr_names
+  apply build_fails_attr_names u _ (by decide)
   refine ⟨_, List.mem_cons_self, ?_⟩
   have e : u.upper ['x'] = ['X'] := by simp [UC.upper, UC.up, asciiUpper, isAsciiLower]
   have e' : u.upper ['X'] = ['X'] := by simp [UC.upper, UC.up, asciiUpper, isAsciiLower]
@@ -222,7 +341,7 @@ example (u : UC) : popInstance u BState.empty ['K'] [['1'], ['2']] (some [['a'],
 /-- a statement list that meets `BuildOk`: one class, one identifier, one reflexive association, one row -/
 example : BuildOk UC.ascii [.createTable ['A'] [(['i'], "INTEGER".toList)], .createIndex ['A'] ['I'] [['i']],
     .createRop ['R', '1'] ['A'] ['1'] [['i']] [] ['A'] ['1'] [['i']] [], .insert ['A'] [['7']] none] := by
-  refine ⟨by unfold KindsDistinct; decide, ?_, ?_, ?_, ?_⟩
+  refine ⟨by decide, by unfold KindsDistinct; decide, ?_, ?_, ?_, ?_⟩
   · intro c hc
     simp only [newTables, List.mem_singleton] at hc; subst hc
     decide
